@@ -67,9 +67,18 @@ package retransmission
 //@   opt unguarded-read handlers
 //@   assert call:handler.fn : [handler-runs-only-while-its-context-is-live] !(handler.ctx in ghost.ctxDone)
 
+// Registration never disturbs a live registration: handler ids are unique for
+// the ticker's lifetime (representation invariant: every registered id is at
+// most the id counter; it is the antecedent here, established by NewTicker's
+// empty map and preserved by onTick; start() only deletes). Sequential
+// specification at the linearization point (the critical section of
+// handlersMutex).
 //@ func Ticker.onTick
 //@   property C17
 //@   opt noframe 1
+//@   opt lock-no-havoc 1
+//@   ensures [registering-keeps-every-live-handler-and-adds-one] (forall k uint64 :: (k in old(t.handlers)) ==> k <= old(t.nextHandlerId)) && old(t.nextHandlerId) < 18446744073709551615 ==> (forall k uint64 :: (k in old(t.handlers)) ==> (k in t.handlers) && t.handlers[k] == old(t.handlers[k])) && len(t.handlers) == old(len(t.handlers)) + 1
+//@   ensures [ids-stay-below-the-counter] (forall k uint64 :: (k in old(t.handlers)) ==> k <= old(t.nextHandlerId)) && old(t.nextHandlerId) < 18446744073709551615 ==> (forall k uint64 :: (k in t.handlers) ==> k <= t.nextHandlerId)
 
 // Retransmissions are registered under the message's context and every tick
 // runs the strategy with the message's retransmit function.
@@ -100,5 +109,6 @@ package retransmission
 //@     yields ghost.lastMessageID = messageID
 //@     assert call:WithRetransmissionSupport#lit1:delegate : [marked-as-seen-before-it-is-delivered] messageID in cache
 //@     modifies ghost.lastMessageID
+//@     ensures [nothing-already-seen-is-forgotten] forall k string :: (k in old(cache)) ==> (k in cache)
 //@     ensures [delivered-only-on-first-sight-and-remembered] (ghost.lastMessageID in cache) && ghost.delivered == old(ghost.delivered) + ite(ghost.lastMessageID in old(cache), 0, 1)
 //@ ghost lastMessageID string
